@@ -133,7 +133,13 @@ func (e *storeEnv) doCtx(ctx context.Context, h http.Handler, method, target str
 type symtab struct {
 	fwd map[string]string
 	rev map[string]string
+	// uuids: the names u1, o1, o2 are instantiated with three different spellings of ONE UUID (upper case, lower case,
+	// urn:uuid: prefix): as names they are unrelated strings
+	uuids bool
 }
+
+var symUUIDs = map[string]string{"u1": "6BA7B810-9DAD-11D1-80B4-00C04FD430C8", "o1": "6ba7b810-9dad-11d1-80b4-00c04fd430c8",
+	"o2": "urn:uuid:6ba7b810-9dad-11d1-80b4-00c04fd430c8"}
 
 var symPool = [][]string{
 	{"%s"},
@@ -164,6 +170,10 @@ func (s *symtab) inst(sym string) string {
 	}
 	if v, ok := s.fwd[sym]; ok {
 		return v
+	}
+	if u, ok := symUUIDs[sym]; ok && s.uuids {
+		s.fwd[sym], s.rev[u] = u, sym
+		return u
 	}
 	v := s.seedPick(symSeed, sym)
 	s.fwd[sym], s.rev[v] = v, sym
@@ -691,6 +701,7 @@ func famStore(t *testing.T) {
 		func() {
 			t.Run(fmt.Sprintf("h%d", h.Run), func(t *testing.T) {
 				e := newStoreEnv(t, storeNamespaces(), *fSeed)
+				e.sym.uuids = h.Run%4 == 3
 				mh := ""
 				if in.Mirror {
 					e.seedMirror(in.Universe)
